@@ -303,11 +303,18 @@ func genProgram(r *rand.Rand, o genOpts) prog {
 		}
 	}
 	if o.asserts {
-		na := r.Intn(3)
+		na := r.Intn(4)
 		for i := 0; i < na; i++ {
 			saved := g.labels
 			g.labels = nil
 			a := item{T: "assert", Toks: g.safeExpr(1+r.Intn(2), len(g.equs))}
+			if r.Intn(4) == 0 { // an assertion that is exactly zero: (E)-(E)
+				e := g.safeExpr(1, len(g.equs))
+				z := append([]tok{op("(")}, e...)
+				z = append(z, op(")"), op("-"), op("("))
+				z = append(z, e...)
+				a.Toks = append(z, op(")"))
+			}
 			g.labels = saved
 			pos := r.Intn(len(items))
 			if items[pos].T == "end" && pos > 0 {
@@ -327,7 +334,22 @@ func genProgram(r *rand.Rand, o genOpts) prog {
 	for i := r.Intn(3); i > 0; i-- {
 		meta = append(meta, item{T: "meta", K: "strategy", V: []string{"bomb everything", "run away", "x = 1"}[r.Intn(3)]})
 	}
-	p.Items = append(meta, append(equItems, items...)...)
+	all := append(equItems, items...)
+	// metadata comments may stand anywhere before END: at the top or between the instructions
+	for _, mi := range meta {
+		limit := len(all)
+		for i, it := range all {
+			if it.T == "end" {
+				limit = i
+			}
+		}
+		pos := 0
+		if r.Intn(2) == 0 {
+			pos = r.Intn(limit + 1)
+		}
+		all = append(all[:pos:pos], append([]item{mi}, all[pos:]...)...)
+	}
+	p.Items = all
 	if hasFor(p.Items) {
 		return p
 	}
